@@ -82,7 +82,7 @@ func VerifC11Authorisation() {
 		want = sCom
 	}
 	vAssert(done == want, "C11/method-takes-effect-exactly-with-the-documented-authority")
-	vCoverIf(done, "authorised-call-succeeded")
+	vRequire(done, "authorised-call-succeeded")
 	vCoverIf(!done, "unauthorised-call-refused")
 	if !done {
 		vAssert(!vEffects(), "C11/unauthorised-attempt-leaves-the-state-unchanged")
